@@ -23,7 +23,7 @@ CLAIM = dict(
          "derivatives and the manifold point Phi(1,0); preferential-mixing EBCM with P(k'|k)=k'P(k')/<k> = EBCM, continuous (vector fields on the invariant subspace) "
          "and discrete (lock-step for every number of steps); EBCM -> SIR compact effective degree (S_kappa = N sum_k c_k C(k,kappa) u^kappa v^(k-kappa), proved through the binomial "
          "moments and the absorption identity); EBCM -> SIR effective degree, the full (s,i) model (S_si = N sum_k c_k C(k,s)C(k-s,i) phiS^s phiI^i phiR^(k-s-i); trinomial moments), "
-         "also over the definition generated from the source.  Only the initial point of SIR_effective_degree_from_graph is checked numerically instead of proved.",
+         "also over the definition generated from the source; all five wrappers start at the manifold point Phi(1,0) on the rho path.",
     design='DESIGN.md section 4, C07; section 8.2 row C07',
     technique='Coq proof over translator-generated right-hand sides + hand-written model of the dict-based routines tied by point evaluation + numerical re-evaluation of every identity on the Python functions',
     note='part of C07 (harness/c07.py); cited: Picard-Lindeloef uniqueness for the lift to curves (continuous-time models only)')
@@ -31,9 +31,9 @@ CLAIM = dict(
 COMP = 'c07x'
 # what Props/C07x.v reaches; the rest of the hierarchy clause is carried by the numerical identities below and the curve oracles of harness/c07.py
 PROVED_STATE = {'proved': ['EBCM -> SIR compact effective degree (binomial change of variables Phi_ced, formal derivative) and the wrapper\'s initial point Phi_ced(1,0)',
-                           'EBCM -> SIR effective degree, full (s,i) model (trinomial change of variables Phi_ed), over the hand-written model and over the definition generated from the source',
+                           'EBCM -> SIR effective degree, full (s,i) model (trinomial change of variables Phi_ed), over the hand-written model and over the definition generated from the source, and the wrapper\'s initial point Phi_ed(1,0)',
                            'heterogeneous mean-field SIR on one degree class -> homogeneous mean-field SIR without the assumed chain rule'],
-                'numerical': ['initial point of SIR_effective_degree_from_graph = Phi_ed(1,0): numerical on every run (captured arguments), not proved']}
+                'numerical': []}
 
 
 # ------------------------------------------------------------------ closed forms (L0, generic arithmetic) ----
